@@ -316,7 +316,7 @@ def spec_signature(spec):
 
 # ----------------------------------------------------------------------------- directed scenarios
 
-SCENARIOS = ["psv", "prv", "fcv", "tcv", "pump_shutoff", "cv_reverse", "power_pump", "pump_curves"]
+SCENARIOS = ["psv", "prv", "fcv", "tcv", "pump_shutoff", "cv_reverse", "power_pump", "pump_curves", "cv_htol"]
 
 
 def _opts(rng, **kw):
@@ -341,7 +341,7 @@ def _junc(name, elev, base=0.0, pattern=None):
 
 def scenario_network(rng, name, variant=0):
     """small directed networks that put one element into the state the random generator rarely reaches;
-    `variant` cycles the valve's initial status (0, 1: ACTIVE, 2: OPEN, 3: CLOSED)"""
+    `variant` cycles the valve's initial status (0: ACTIVE, 1: CLOSED, 2: OPEN, 3: ACTIVE)"""
     pats = {"pat0": [1.0, _r(rng, 0.3, 0.8, 2), _r(rng, 1.2, 1.9, 2), 1.0]}
     curves = {}
     H = _r(rng, 90, 110, 1)
@@ -367,7 +367,7 @@ def scenario_network(rng, name, variant=0):
             setting = _r(rng, 1, 200, 1)
         links.append({"name": "V1", "type": "valve", "start": "JA", "end": "JB", "valve_type": vt, "diameter": 0.2,
                       "minor_loss": rng.choice([0.0, 2.5]), "setting": setting,
-                      "initial_status": ["ACTIVE", "ACTIVE", "OPEN", "CLOSED"][variant % 4]})
+                      "initial_status": ["ACTIVE", "CLOSED", "OPEN", "ACTIVE"][variant % 4]})
     elif name == "pump_shutoff":
         # R0 -pump-> J -pipe-> R1 with R1 around the pump's shut-off head
         npts = rng.choice([1, 2, 3])
@@ -379,6 +379,13 @@ def scenario_network(rng, name, variant=0):
                  _junc("J0", 5.0, rng.choice([0.0, 0.0, 0.001]))]
         links = [{"name": "PU1", "type": "pump", "start": "R0", "end": "J0", "pump_type": "HEAD", "curve": "c1", "initial_status": "OPEN"},
                  _pipe("P1", "J0", "R1", L=100.0, d=0.3)]
+    elif name == "cv_htol":
+        # R0 -CV pipe-> J0 -pipe-> R1 with R1 within / just outside the head tolerance above R0: only the FLOW test can close the CV
+        off = rng.choice([0.0001, 0.00005, 0.00014, 0.00016, 0.001, -0.0001, 0.00012])
+        nodes = [{"name": "R0", "type": "reservoir", "head": 50.0, "head_pattern": None},
+                 {"name": "R1", "type": "reservoir", "head": 50.0 + off, "head_pattern": None},
+                 _junc("J0", 5.0, rng.choice([0.0, 0.0, 0.0002]))]
+        links = [_pipe("P1", "R0", "J0", L=_r(rng, 50, 150, 0), d=rng.choice([0.3, 0.4]), cv=True), _pipe("P2", "J0", "R1", L=100.0, d=0.3)]
     elif name == "cv_reverse":
         pats["hp"] = [1.0, _r(rng, 0.5, 0.8, 2), _r(rng, 1.1, 1.3, 2), 1.0]
         nodes = [{"name": "R0", "type": "reservoir", "head": 60.0, "head_pattern": "hp"},
